@@ -60,6 +60,10 @@ def mk_file(rng, defs, allow_alias=True):
             f[name] = rng.choice(VALUES + [cs])          # an override (possibly textually the default)
         elif r < 0.4:
             f[name] = ' ' + cs if isinstance(cs, str) and cs else cs    # a textual variant of the default
+        elif r < 0.48 and isinstance(cs, str) and ':' in cs:
+            # the default with another letter case after the colon: the same rule for role:, another one elsewhere
+            k, m = cs.split(':', 1)
+            f[name] = k + ':' + rng.choice([m.upper(), m.capitalize(), m.swapcase()])
     for o in sorted(olds):
         succ = [d[0] for d in defs if d[2] and d[2][0] == o]
         if any(s in f for s in succ):
@@ -67,8 +71,8 @@ def mk_file(rng, defs, allow_alias=True):
         r = rng.random()
         if r < 0.45:
             f[o] = rng.choice(VALUES)
-        elif r < 0.55 and allow_alias and len(succ) == 1:
-            f[o] = 'rule:' + succ[0]
+        elif r < (0.8 if len(succ) > 1 else 0.6) and allow_alias:
+            f[o] = 'rule:' + rng.choice(succ)        # the old name kept as an alias of one (of possibly several) successors
     if rng.random() < 0.4:
         f['svc:unknown'] = rng.choice(VALUES)
     return f
@@ -169,10 +173,19 @@ def one_round(seed, root_a, root_b, wd):
             pass
     run = R()
     defs = mk_defaults(rng)
+    forced_file = None
+    if seed % 8 == 0:
+        # a deprecated name split into successors with DIFFERENT defaults, kept by the operator as an alias of one of them
+        defs = [('admin_required', 'role:admin', None), ('svc:create', 'role:admin', ('svc:write', 'role:old')),
+                ('svc:delete', 'role:member', ('svc:write', 'role:old')),
+                ('svc:update', 'role:reader', ('svc:write', 'role:old'))]
+        forced_file = {'svc:write': 'rule:' + ['svc:create', 'svc:delete', 'svc:update'][(seed // 8) % 3]}
     objs = build_defaults(defs)
     names_new = [d[0] for d in defs]
     # ---------------- upgrade
     f = mk_file(rng, defs)
+    if forced_file is not None:
+        f = forced_file
     inp = {'defaults': defs, 'file': f}
     src = os.path.join(wd, 'up_in.yaml')
     dst = os.path.join(wd, 'up_out.yaml')
@@ -205,6 +218,8 @@ def one_round(seed, root_a, root_b, wd):
             run.corr.append((dict(inp, tool='upgrade'), mo, out))
     # ---------------- convert json -> yaml
     f = mk_file(rng, defs)
+    if forced_file is not None:
+        f = forced_file
     inp = {'defaults': defs, 'file': f}
     src = os.path.join(wd, 'cv_in.json')
     dst = os.path.join(wd, 'cv_out.yaml')
